@@ -46,14 +46,14 @@ PROPS = {
     ),
     "C03": dict(
         pkg="engine", level="fault_enumeration", rule=CRASH_RULE, eval_is_oracle=True,
-        quick=dict(runs=96, budget_s=50, det_runs=3), thorough=dict(runs=4000, budget_s=1500, det_runs=8),
+        quick=dict(runs=96, budget_s=50, det_runs=3), thorough=dict(runs=4000, budget_s=1200, det_runs=4),
         must_probes=dict(quick=["crash_with_inflight_commit", "recovery_multi_wal", "recovery_wal_and_tables"],
                          thorough=["crash_with_inflight_commit", "recovery_multi_wal", "recovery_wal_and_tables"]),
     ),
     "C04": dict(
         pkg="engine", level="fault_enumeration", rule=CRASH_RULE + "; oracle: the commit in flight at the crash is visible for all or none of the keys whose old and new value differ",
         eval_is_oracle=True,
-        quick=dict(runs=96, budget_s=50, det_runs=3), thorough=dict(runs=4000, budget_s=1500, det_runs=8),
+        quick=dict(runs=96, budget_s=50, det_runs=3), thorough=dict(runs=4000, budget_s=1200, det_runs=4),
         must_probes=dict(quick=["crash_with_inflight_multikey_commit"], thorough=["crash_with_inflight_multikey_commit", "crash_with_inflight_commit_over_64KiB"]),
     ),
     "C14": dict(
@@ -63,7 +63,7 @@ PROPS = {
                           "prefix, at record boundaries and inside record bodies (product over files up to 16 variants, else a "
                           "sample that always contains everything-cut-to-synced); only variants with at least one cut are run here",
         eval_is_oracle=True,
-        quick=dict(runs=64, budget_s=50, det_runs=3), thorough=dict(runs=3000, budget_s=1500, det_runs=8),
+        quick=dict(runs=64, budget_s=50, det_runs=3), thorough=dict(runs=3000, budget_s=1200, det_runs=4),
         must_probes=dict(quick=["crash_with_inflight_commit"], thorough=["crash_with_inflight_commit"]),
     ),
     "C05": dict(
